@@ -53,8 +53,16 @@ def gen(g, tier):
         "fault": None,
         "stop": g.pick(["stop", "stop", "stop", "exit"]),
     }
-    k = g.weighted([5, 3, 3])
-    if k == 1 and not cfg["external"]:
+    k = g.weighted([5, 3, 3, 1])
+    if k == 3 and remotes and not cfg["external"]:
+        # the convention leader announces a daemon that has already checked in once more (a member that was considered lost for a
+        # moment and registered again): nothing may be started twice
+        cfg["fault"] = {"kind": "duplicate-join", "ip": g.pick(remotes), "delay": g.pick([0.0, 0.001, 0.05, 0.5])}
+        for r in cfg["remotes"]:
+            if r["ip"] != cfg["fault"]["ip"] and g.coin(0.7):
+                r["join"] = "late"
+                break
+    elif k == 1 and not cfg["external"]:
         hostips = sorted({t.split(":")[0] for t in targets})
         cfg["fault"] = {"kind": "start-fails", "ip": g.pick(hostips), "how": g.pick(["launcher", "provisioner", "supplier"])}
     elif k == 2 and remotes and not cfg["external"]:
@@ -134,6 +142,15 @@ class MechanicHarness(Harness):
                             c["fault"] = {"kind": "start-fails", "ip": ip, "how": how}
                             c["stop"] = stop
                             yield c
+                for ip in remotes:
+                    for delay in (0.0, 0.05, 0.5):
+                        c = json.loads(json.dumps(base))
+                        c["fault"] = {"kind": "duplicate-join", "ip": ip, "delay": delay}
+                        for r in c["remotes"]:
+                            if r["ip"] != ip:
+                                r["join"] = "late"
+                                break
+                        yield c
                 for ip in remotes:
                     for when in ("while-waiting", "after-joined", "after-start-sent", "after-started"):
                         for delay in (0.0, 0.05):
@@ -306,6 +323,10 @@ class MechanicHarness(Harness):
                 pass
             if cname == "Dispatcher" and mname == "ActorSystemConventionUpdate" and msg.remoteAdded:
                 ip = msg.remoteCapabilities.get("ip")
+                if fault and fault["kind"] == "duplicate-join" and ip == fault["ip"] and "dup" not in state:
+                    state["dup"] = True
+                    fired["duplicate_join_announced"] = 1
+                    system.call_at(clock.now + fault["delay"], lambda c=cell, i=ip: system._convention_update(c, system.hosts[i], True))
                 if fault and fault["kind"] == "daemon-leaves" and fault["when"] in ("after-joined", "while-waiting") and ip == fault["ip"] and "left" not in state:
                     state["left"] = True
                     system.call_at(clock.now + fault["delay"], lambda: leave(fault["ip"]))
@@ -500,9 +521,20 @@ class MechanicHarness(Harness):
         if extra:
             bad("stop", "stopped-unstarted", f"[{what}]: nodes {extra} stopped but never started")
         # flush with refresh and cleanup per stopped node
-        for ip in {n[0] for n in stopped}:
+        for ip in sorted({n[0] for n in stopped}):
             if not any(e[1] == "flush" and e[2] == ip and e[3] for e in rec.events):
                 bad("stop", "no-refreshing-flush", f"[{what}]: host {ip} stopped its nodes without flushing system metrics with refresh")
+                continue
+            # ... and in this order: stop the nodes, flush with refresh (what the nodes wrote becomes readable), then read and store
+            # the system results (closing the store flushes once more, which is too late for them)
+            evs = [e for e in rec.events if e[2] == ip]
+            for i, e in enumerate(evs):
+                if e[1] != "results-stored":
+                    continue
+                j = max((k for k in range(i) if evs[k][1] == "node-stopped"), default=None)
+                if j is not None and not any(evs[k][1] == "flush" and evs[k][3] for k in range(j + 1, i)):
+                    bad("stop", "results-read-before-refreshing-flush", f"[{what}]: host {ip} stored the system results of {e[3]} without a refreshing flush between stopping its nodes and reading their metrics ({[(x[1], x[3]) for x in evs[j:i + 1]]})")
+                    break
         # ... and the system results of every stopped node are stored (once)
         for n in sorted(set(stopped)):
             k = sum(1 for e in rec.events if e[1] == "results-stored" and e[2] == n[0] and e[3] == n[1])
